@@ -40,6 +40,7 @@ OBJ_DSL = {
     "is_none": lambda t: sv_bool(PyObj.is_PNone(t)),
     "is_placeholder": lambda t: sv_bool(PyObj.is_PPlaceholder(t)),
     "is_bool": lambda t: sv_bool(PyObj.is_PBool(t)),
+    "is_pint": lambda t: sv_bool(PyObj.is_PInt(t)),
     "is_int": lambda t: sv_bool(z3.Or(PyObj.is_PInt(t), PyObj.is_PBool(t), PyObj.is_PEnum(t))),
     "as_int": lambda t: sv_int(obj_int(t)),
     "is_float": lambda t: sv_bool(PyObj.is_PFloat(t)),
@@ -55,6 +56,10 @@ OBJ_DSL = {
     "is_list": lambda t: sv_bool(PyObj.is_PList(t)),
     "is_dict": lambda t: sv_bool(PyObj.is_PDict(t)),
     "is_enum": lambda t: sv_bool(PyObj.is_PEnum(t)),
+    "mk_int": lambda t: SV("obj", PyObj.PInt(t)),
+    "mk_bool": lambda t: SV("obj", PyObj.PBool(t)),
+    "mk_bytes": lambda t: SV("obj", PyObj.PBytes(t)),
+    "mk_str": lambda t: SV("obj", PyObj.PStr(t)),
     "float_is_zero": lambda t: sv_bool(FLOAT_ISZERO(PyObj.pfloat(t))),
     "msg_is_default": lambda t: sv_bool(MSG_ISDEF(t)),
 }
@@ -95,7 +100,7 @@ class SpecLib:
     def has(self, name):
         if any(getattr(p, "spec_has", lambda n: False)(name) for p in self.plugins):
             return True
-        return (name in self.src or name in ("B", "EMPTY", "LEN") or name in OBJ_DSL
+        return (name in self.src or name in ("B", "EMPTY", "LEN", "mk_enum", "EMPTYSEQ", "SEQ1", "LISTREF", "DICTREF") or name in OBJ_DSL
                 or name in getattr(self, "consts", {}))
 
     @staticmethod
@@ -181,6 +186,20 @@ class SpecLib:
             return sv_bytes(z3.Unit(ex.as_int(pos[0], st)))
         if name == "LEN":
             return sv_int(z3.Length(pos[0].t))
+        if name == "EMPTYSEQ":
+            return SV("objseq", z3.Empty(OBJSEQ))
+        if name == "SEQ1":
+            return SV("objseq", z3.Unit(to_obj(pos[0])))
+        if name == "LISTREF":
+            return sv_int(PyObj.plist(to_obj(pos[0])))
+        if name == "DICTREF":
+            return sv_int(PyObj.pdict(to_obj(pos[0])))
+        if name == "mk_enum":
+            return SV("obj", PyObj.PEnum(ex.as_int(pos[0], st), ex.as_int(pos[1], st)))
+        if name in ("mk_int", "mk_bool", "mk_bytes", "mk_str"):
+            a = pos[0]
+            t = ex.as_int(a, st) if name == "mk_int" else (ex.truth(a) if name == "mk_bool" else a.t)
+            return OBJ_DSL[name](t)
         if name in OBJ_DSL:
             return OBJ_DSL[name](to_obj(pos[0]))
         if name in getattr(self, "consts", {}) and name not in self.src:
@@ -216,7 +235,10 @@ class SpecLib:
         r = self._plug("obj_equal", ex, a, b, st)
         if r is not None:
             return r
-        return to_obj(a) == to_obj(b)
+        x, y = to_obj(a), to_obj(b)
+        intlike = lambda t: z3.Or(PyObj.is_PInt(t), PyObj.is_PBool(t), PyObj.is_PEnum(t))
+        # Python ==: bool / int / Enum(int) compare by integer value; everything else structurally
+        return z3.If(z3.And(intlike(x), intlike(y)), obj_int(x) == obj_int(y), x == y)
 
     def binop_hook(self, ex, op, a, b, st):
         if isinstance(op, ast.Div) and a.kind in ("int", "bool") and b.kind in ("int", "bool"):
@@ -258,6 +280,13 @@ class SpecLib:
 
     def iter_hook(self, ex, st, itv):
         return self._plug("iter_hook", ex, st, itv)
+
+    def fresh_yield(self, ex, c, st):
+        """a fresh value of the generator's yield type (ParsedField for load_fields / parse_fields)"""
+        from .exec import fresh
+        return SV("rec", {"number": sv_int(fresh("pf_number", IntS)), "wire_type": sv_int(fresh("pf_wire_type", IntS)),
+                          "value": SV("obj", fresh("pf_value", PyObj)), "raw": sv_bytes(fresh("pf_raw", BytesS))},
+                  "betterproto.ParsedField")
 
     def make_model_param(self, ex, st, p, model):
         r = self._plug("make_model_param", ex, st, p, model)
@@ -335,6 +364,18 @@ class SpecLib:
                     yield st, sv_int(int(s))
                     return
             raise Unsupported(f"int() of {v.kind}")
+        if name == "str" and len(pos) == 2 and concrete_str(pos[1].t) == "utf-8":
+            b = ex.as_bytes(pos[0], st)
+            ex.assumption("A-UTF8")
+            yield st, Raised(SV("exc", "UnicodeDecodeError"))
+            yield st, self.call(ex, "UTF8DEC", [sv_bytes(b)], st)
+            return
+        if name == "struct.unpack":
+            ex.assumption("A-STRUCT")
+            b = ex.as_bytes(pos[1], st)
+            yield st, Raised(SV("exc", "StructError"))
+            yield st, sv_tuple([self.call(ex, "UNPACKF", [pos[0], sv_bytes(b)], st)])
+            return
         if name in ("bytes", "bytearray"):
             if not pos:
                 yield st, sv_bytes(b"")
